@@ -224,6 +224,30 @@ def k1_structure(n1: List[int], d1: List[int], n2: List[int], d2: List[int], ct:
     return (r.failures == 0) == want
 
 
+def k1_data_columns(n1: List[int], n2: List[int], ct: int, cd: int, co: int) -> bool:
+    """
+    pre: 1 <= len(n1) <= 2 and 1 <= len(n2) <= 2 and all(0 <= x < 3 for x in n1 + n2)
+    pre: all(n1[i] != n1[j] for i in range(len(n1)) for j in range(i)) and all(n2[i] != n2[j] for i in range(len(n2)) for j in range(i))
+    pre: 0 <= ct < 2 and 0 <= cd < 2 and 0 <= co < 2
+    post: __return__
+    """
+    # a column of the reference that the actual frame lacks (e.g. a renamed column) is a difference for every kind
+    # of check it is selected for - also when only the values are checked - and is reported, not raised
+    df = _frame(n1, [0] * len(n1), [])
+    ref = _frame(n2, [0] * len(n2), [])
+    ct, cd, co = _c(ct, 2), _c(cd, 2), _c(co, 2)
+    r = _check(df, ref, check_types=_opt(ct, None, NAMES), check_data=_opt(cd, None, NAMES),
+               check_order=_opt(co, None, NAMES), check_extra_cols=False)
+    missing = [c for c in ref.names if c not in df.names]
+    want = True
+    if missing and (ct == 0 or cd == 0):
+        want = False
+    if co == 0 and not missing:
+        if [c for c in df.names if c in ref.names] != [c for c in ref.names if c in df.names]:
+            want = False
+    return (r.failures == 0) == want
+
+
 # ---- K2: values --------------------------------------------------------------------------------------------
 def _part_ok(part, a, b, fa, fb, precision):
     if part == 'ints':      # the float column constant, precision default
@@ -325,6 +349,11 @@ def k4_option_flag(flag: int, sub: List[bool]) -> bool:
 def _obs():
     obs = []
     Q, T = 'quick', 'thorough'
+    obs.append(Ob('K1', 'k1_data_columns', 'a reference column the actual frame lacks (a renamed column) fails every '
+                  'kind of check it is selected for, the value check included, as a reported difference and never as '
+                  'an internal error', 'actual and reference: 1..2 columns over 3 names (symbolic indexes), no rows; '
+                  'check_types None/False, check_data None/False, check_order None/False; check_extra_cols off',
+                  timeout=300, stubs=['CFrame', 'same_structure_dataframe_diffs -> cell counter']))
     what = ('check_dataframe passes exactly when: every type-checked column of the reference exists with a matching '
             'type at the requested level, no extra-checked column of the actual is absent from the reference, and the '
             'order-checked columns appear in the same relative order; it returns a FailureDiffs, never raises')
